@@ -632,6 +632,10 @@ impl Check for C11 {
         "C11"
     }
     fn generate(&self, seed: u64, _tier: Tier) -> Value {
+        // a quarter of the runs: 3-node cluster scenario (real cluster-sync origins, node death and rejoin)
+        if Rng::derive(seed, "C11.kind", 0).chance(0.25) {
+            return crate::checks_nc::gen_c11_cluster(seed);
+        }
         let mut rng = Rng::derive(seed, "C11.gen", 0);
         let cfg = naming_cfg(&mut rng, false);
         let n = rng.range(8, 70);
@@ -649,6 +653,9 @@ impl Check for C11 {
         json!({"check": "C11", "seed": seed, "cfg": cfg, "steps": steps})
     }
     fn execute(&self, script: Value) -> LocalFut<ExecResult> {
+        if script["cluster"].as_bool().unwrap_or(false) {
+            return Box::pin(crate::checks_nc::exec_c15_mode(script, true));
+        }
         Box::pin(exec_naming("C11", script))
     }
 }
